@@ -183,6 +183,10 @@ def _normals_oracles(rec, groups, dim, meas, bmeas, regions, Q, t, x_in, scale, 
     rec.close(dev, 1.0, TOL_ID, "normal_unit", f"{what}: |n| differs from 1 by {dev:.3e}", **sig)
     rec.close(S - bmeas, bmeas, TOL_ID, "boundary_measure",
               f"{what}: measure of the boundary groups {S!r} vs exact {bmeas!r}", **dict(sig, entity="boundary_measure"))
+    rdev, rn = cg.raw_route_dev(groups, MASS)
+    if rn:
+        rec.close(rdev, 1.0, TOL_ID, "normal_raw_route", f"{what}: Get_weight_pg * Get_normals_e_pg(normalize=False) differs from "
+                  f"wJ_e_pg * normals_e_pg by {rdev:.3e} (relative to max wJ) on some Gauss point", **sig)
     if in_plane is not None:
         off = 0.0
         for g in groups:
@@ -606,6 +610,104 @@ def check_point_location(case, rec):
 
 
 # ------------------------------------------------------------------------------------------
+# (c') point location in one-dimensional meshes (segments of every order, anywhere in space)
+
+
+@st.composite
+def location1d_cases(draw):
+    r = draw(gm.recipes1d())
+    ops = draw(st.one_of(st.just([]), cg.motions(3)))
+    deg = draw(st.integers(1, gm.ORDER[r["elemType"]]))
+    coefs = [draw(st.integers(-3, 3)) for _ in range(deg + 1)]
+    nq = draw(st.integers(3, 12))
+    # (element, kind, position in the element as k/16)
+    queries = [[draw(st.integers(0, 99)), draw(st.sampled_from(["in", "in", "in", "end", "node"])), draw(st.integers(1, 15))] for _ in range(nq)]
+    return dict(recipe=r, ops=ops, deg=deg, coefs=coefs, queries=queries)
+
+
+def enum_location1d(tier):
+    for et in gm.SEG:
+        for name in ("none", "rot3", "mirror3"):
+            for d in ([3.0, 0.0, 0.0], [-2.0, 0.0, 0.0], [1.0, 2.0, 0.0], [1.0, -1.5, 2.0]):
+                deg = gm.ORDER[et]
+                queries = [[e, kind, k] for e in (0, 1, 2) for kind, k in (("in", 3), ("in", 8), ("in", 11), ("in", 14), ("end", 0), ("node", 5))]
+                yield dict(recipe=dict(p1=[0.5, -1.0 if d[1] else 0.0, 0.0], d=d, ne=3, elemType=et, perm=None), ops=_OPS[name], deg=deg,
+                           coefs=[1.0, -2.0, 1.5, 0.5, -1.0][: deg + 1], queries=queries)
+
+
+def check_location_1d(case, rec):
+    """the same oracle as in 2D/3D: a nodal field that is a polynomial (of the element's order) of the abscissa along
+    the line, evaluated at query points constructed at known abscissae of known elements; every point of the
+    closed segment must be located, singly and in a batch"""
+    r = case["recipe"]
+    et = r["elemType"]
+    mesh = gm.build(r)
+    ops = cg.scale_ops(case["ops"], gm.length_unit(r))
+    cg.apply_motion(mesh, ops)
+    Q, t = cg.motion_map(ops)
+    p1 = Q @ np.array(r["p1"], float) + t
+    d = Q @ np.array(r["d"], float)
+    L = float(np.linalg.norm(d))
+    X = np.asarray(mesh.coord, float)
+    s_n = (X - p1) @ d / L**2  # abscissa in [0, 1] of every node
+    coefs = case["coefs"]
+    p = lambda s: sum(c * s**k for k, c in enumerate(coefs))  # noqa
+    g = gm.main_groups(mesh)[0]
+    conn = np.asarray(g.connect, int)
+    on_axis = bool(np.abs(X[:, 1:]).max() == 0.0)
+    sig = dict(elemType=et, dim=1, on_x_axis=on_axis, mirrored=bool(cg.n_reflections(ops) % 2))
+    rec.label("loc1d:" + et, "loc1d:on_x_axis" if on_axis else "loc1d:in_space", f"loc1d:deg{case['deg']}")
+    pts, ss, kinds = [], [], []
+    for e, kind, k in case["queries"]:
+        e = e % g.Ne
+        a, b = s_n[conn[e, 0]], s_n[conn[e, 1]]
+        if kind == "in":
+            s = a + (b - a) * k / 16.0
+        elif kind == "end":
+            s = a if k % 2 else b
+        else:
+            s = s_n[conn[e, k % conn.shape[1]]]
+        ss.append(float(s))
+        pts.append(p1 + s * d)
+        kinds.append(kind if kind != "in" else ("in_first_half" if k < 8 else "in_second_half"))
+    pts = np.array(pts)
+    ss = np.array(ss)
+    vals_n = np.stack([p(s_n), np.ones(mesh.Nn)], 1).ravel()
+    exact = p(ss)
+    fscale = float(sum(abs(c) for c in coefs) + 1.0)
+    # the inverse map of a straight segment with equidistant nodes is affine: identity-level tolerance
+    single = np.zeros((len(pts), 2))
+    for i, x in enumerate(pts):
+        sg = dict(sig, kind=kinds[i], mode="single")
+        rec.label("query1d:" + kinds[i])
+        v = np.asarray(mesh.Evaluate_dofsValues_at_coordinates(x[None, :].copy(), vals_n), float)
+        rec.require(v.shape == (1, 2), "result_shape", f"{v.shape}", **sg)
+        single[i] = v[0]
+        ok = rec.require(v[0, 1] != 0.0 or v[0, 0] != 0.0, "located",
+                         f"{et}: query point {x.tolist()} (abscissa {ss[i]:.4f} L, {kinds[i]}) of the line {p1.tolist()} + s {d.tolist()} "
+                         f"is not located: Evaluate_dofsValues_at_coordinates returns 0 for the nodal field 1", **sg)
+        if not ok:
+            continue
+        rec.close(v[0, 1] - 1.0, 1.0, 1e-9, "unity", f"{et}: nodal field 1 evaluates to {v[0, 1]!r} at s={ss[i]}", **sg)
+        rec.close(v[0, 0] - exact[i], fscale, 1e-9, "value", f"{et}: degree-{case['deg']} polynomial {coefs} of the abscissa at "
+                  f"s={ss[i]!r}: {v[0, 0]!r} vs {exact[i]!r}", fam="value", **sg)
+    # batch: distinct abscissae only (the batch entry point is documented for distinct points)
+    _, keep = np.unique(np.round(ss, 12), return_index=True)
+    keep = sorted(keep.tolist())
+    if len(keep) >= 2:
+        vb = np.asarray(mesh.Evaluate_dofsValues_at_coordinates(pts[keep].copy(), vals_n), float)
+        rec.require(vb.shape == (len(keep), 2), "result_shape", f"{vb.shape}", mode="batch", **sig)
+        for j, i in enumerate(keep):
+            sg = dict(sig, kind=kinds[i], mode="batch")
+            okb = rec.require(vb[j, 1] != 0.0 or vb[j, 0] != 0.0, "located",
+                              f"{et}: query point at s={ss[i]:.4f} L is not located in a batch of {len(keep)}", **sg)
+            if okb:
+                rec.close(vb[j, 0] - exact[i], fscale, 1e-9, "value", f"{et}: batch of {len(keep)}: {vb[j, 0]!r} vs {exact[i]!r} at s={ss[i]!r}",
+                          fam="value", **sg)
+    rec.nontrivial(any(abs(c) > 0 for c in coefs[1:]) and any(k.startswith("in") for k in kinds))
+
+
+# ------------------------------------------------------------------------------------------
 # (d) mesh-to-mesh projector
 
 
@@ -758,5 +860,7 @@ SUBS = [
     Sub("point_location_3d", check_point_location, gen=lambda: location_cases(3), quick=80, thorough=600, shards=8),
     Sub("normals_types", check_normals_table, enum=enum_normals, doc="every element type x contour order / boundary source x rotation / mirror"),
     Sub("location_types", check_point_location, enum=enum_location, doc="every element type x geometry x motion x query kind"),
+    Sub("point_location_1d", check_location_1d, gen=location1d_cases, quick=80, thorough=800, shards=4),
+    Sub("location_types_1d", check_location_1d, enum=enum_location1d, doc="SEG2..SEG5 x line direction (on the x axis in both senses, in the plane, in space) x motion"),
     Sub("projector", check_projector, gen=projector_cases, quick=100, thorough=600, shards=4),
 ]
